@@ -48,4 +48,142 @@ int parse_options(reproc_options *options, const char *const *argv)
   ;
 #undef O0
 
+
+/* ------------------------------ handle.posix.c ---------------------------- */
+
+#define FD_FRAME_EXCEPT(m)                                                     \
+  ((g.open & ~(m)) == (OLD(g.open) & ~(m)) && (g.lib & ~(m)) == (OLD(g.lib) & ~(m)) && \
+   (g.cloexec & ~(m)) == (OLD(g.cloexec) & ~(m)) && (g.nonblock & ~(m)) == (OLD(g.nonblock) & ~(m)))
+#define FD_LEDGER_UNCHANGED                                                    \
+  (g.open == OLD(g.open) && g.lib == OLD(g.lib))
+
+CONTRACT(handle_destroy)
+int handle_destroy(int handle)
+  /* the caller may only hand over what the library opened and still holds */
+  REQ("C05/handle_destroy.own_open_descriptor", handle == -1 || g.in_child || (IS_OPEN(handle) && IS_LIB(handle)))
+  ASSIGNS(g)
+  ENS("C05/handle_destroy.returns_invalid", RV == -1)
+  ENS("C05/handle_destroy.invalid_is_noop", IMPLIES(handle == -1, g.os_calls == OLD(g.os_calls) && FD_LEDGER_UNCHANGED))
+  ENS("C05/handle_destroy.releases_exactly_that_descriptor", g.open == (OLD(g.open) & ~MASK_OF(handle)) && g.lib == (OLD(g.lib) & ~MASK_OF(handle)))
+  ENS("C05/handle_destroy.others_keep_flags", FD_FRAME_EXCEPT(MASK_OF(handle)))
+  ENS("C14/handle_destroy.errno_free_interface", g.child_pid == OLD(g.child_pid) && g.child_reaped == OLD(g.child_reaped) && g.nsig == OLD(g.nsig))
+  ;
+
+CONTRACT(handle_cloexec)
+int handle_cloexec(int handle, bool enable)
+  ASSIGNS(g)
+  ENS("C11/handle_cloexec.sets_flag", IMPLIES(RV == 0, IS_OPEN(handle) && ((g.cloexec & MASK_OF(handle)) != 0) == enable))
+  ENS("C11/handle_cloexec.only_that_flag", g.open == OLD(g.open) && g.lib == OLD(g.lib) && g.nonblock == OLD(g.nonblock) && (g.cloexec & ~MASK_OF(handle)) == (OLD(g.cloexec) & ~MASK_OF(handle)))
+  ENS("C04/handle_cloexec.reports_errno", (RV == 0 || RV == -g.err) && RV <= 0)
+  ENS("C04/handle_cloexec.first_failure_reported", IMPLIES(RV < 0 && OLD(g.faults) == 0 && g.faults > 0, RV == -g.first_errno))
+  ;
+
+/* ------------------------------- pipe.posix.c ----------------------------- */
+
+CONTRACT(pipe_destroy)
+int pipe_destroy(int pipe)
+  REQ("C05/pipe_destroy.own_open_descriptor", pipe == -1 || g.in_child || (IS_OPEN(pipe) && IS_LIB(pipe)))
+  ASSIGNS(g)
+  ENS("C05/pipe_destroy.returns_invalid", RV == -1)
+  ENS("C05/pipe_destroy.invalid_is_noop", IMPLIES(pipe == -1, g.os_calls == OLD(g.os_calls) && FD_LEDGER_UNCHANGED))
+  ENS("C05/pipe_destroy.releases_exactly_that_descriptor", g.open == (OLD(g.open) & ~MASK_OF(pipe)) && g.lib == (OLD(g.lib) & ~MASK_OF(pipe)))
+  ENS("C05/pipe_destroy.others_keep_flags", FD_FRAME_EXCEPT(MASK_OF(pipe)))
+  ENS("C14/pipe_destroy.nothing_else", g.child_pid == OLD(g.child_pid) && g.child_reaped == OLD(g.child_reaped) && g.child_live == OLD(g.child_live) && g.nsig == OLD(g.nsig) && g.reaps == OLD(g.reaps) && g.sigmask == OLD(g.sigmask) && g.now == OLD(g.now))
+  ;
+
+#define PIPE_PAIR_FRESH(r, w)                                                  \
+  (FD_OK(r) && FD_OK(w) && (r) != (w) && (OLD(g.open) & (BIT(r) | BIT(w))) == 0 && \
+   g.open == (OLD(g.open) | BIT(r) | BIT(w)) && g.lib == (OLD(g.lib) | BIT(r) | BIT(w)))
+
+CONTRACT(pipe_init)
+int pipe_init(int *read, int *write)
+  REQ_(read != NULL && write != NULL && read != write)
+  ASSIGNS(*read, *write, g)
+  ENS("C05/pipe_init.success_two_fresh_library_descriptors", IMPLIES(RV == 0, PIPE_PAIR_FRESH(*read, *write)))
+  ENS("C11/pipe_init.both_ends_close_on_exec", IMPLIES(RV == 0, (g.cloexec & (MASK_OF(*read) | MASK_OF(*write))) == (MASK_OF(*read) | MASK_OF(*write))))
+  ENS("C17/pipe_init.both_ends_blocking", IMPLIES(RV == 0, (g.nonblock & (MASK_OF(*read) | MASK_OF(*write))) == 0))
+  ENS("C10/pipe_init.ends_of_one_pipe", IMPLIES(RV == 0, g.obj[*read] >= OBJ_PIPE_BASE && (g.obj[*read] & 1) == 0 && g.obj[*write] == g.obj[*read] + 1 && (g.rd & BIT(*read)) != 0 && (g.wr & BIT(*write)) != 0))
+  ENS("C05/pipe_init.failure_leaves_no_descriptor", IMPLIES(RV != 0, FD_LEDGER_UNCHANGED && *read == OLD(*read) && *write == OLD(*write)))
+  ENS("C05/pipe_init.other_descriptors_untouched", FD_FRAME_EXCEPT(RV == 0 ? (MASK_OF(*read) | MASK_OF(*write)) : 0u))
+  ENS("C04/pipe_init.zero_or_negative_errno", RV <= 0 && IMPLIES(RV < 0, g.faults > OLD(g.faults)))
+  ENS("C04/pipe_init.first_failure_reported", IMPLIES(RV < 0 && OLD(g.faults) == 0, RV == -g.first_errno))
+  ENS("C14/pipe_init.nothing_else", g.child_pid == OLD(g.child_pid) && g.child_reaped == OLD(g.child_reaped) && g.child_live == OLD(g.child_live) && g.nsig == OLD(g.nsig) && g.reaps == OLD(g.reaps) && g.sigmask == OLD(g.sigmask) && g.now == OLD(g.now))
+  ;
+
+CONTRACT(pipe_nonblocking)
+int pipe_nonblocking(int pipe, bool enable)
+  ASSIGNS(g)
+  ENS("C17/pipe_nonblocking.sets_flag", IMPLIES(RV == 0, IS_OPEN(pipe) && ((g.nonblock & MASK_OF(pipe)) != 0) == enable))
+  ENS("C17/pipe_nonblocking.only_that_flag", g.open == OLD(g.open) && g.lib == OLD(g.lib) && g.cloexec == OLD(g.cloexec) && (g.nonblock & ~MASK_OF(pipe)) == (OLD(g.nonblock) & ~MASK_OF(pipe)))
+  ENS("C04/pipe_nonblocking.zero_or_negative_errno", RV <= 0 && IMPLIES(RV < 0, RV == -g.err))
+  ENS("C04/pipe_nonblocking.first_failure_reported", IMPLIES(RV < 0 && OLD(g.faults) == 0 && g.faults > 0, RV == -g.first_errno))
+  ENS("C17/pipe_nonblocking.does_not_block", g.may_block == OLD(g.may_block))
+  ;
+
+/* The library's share of stream fidelity: it asks the kernel exactly once, on
+   that descriptor, with the caller's buffer and size, and reports what the
+   kernel said (C02). */
+CONTRACT(pipe_read)
+int pipe_read(int pipe, uint8_t *buffer, size_t size)
+  REQ("C02/pipe_read.descriptor_open", IS_OPEN(pipe))
+  REQ_(buffer != NULL)
+  ASSIGNS(g, __CPROVER_object_whole(buffer))
+  ENS("C02/pipe_read.exactly_one_read_as_asked", g.rd_calls == OLD(g.rd_calls) + 1 && g.rd_fd == pipe && g.rd_buf == (const void *) buffer && g.rd_n == size && g.wr_calls == OLD(g.wr_calls))
+  ENS("C02/pipe_read.count_is_kernels", IMPLIES(g.rd_ret > 0, RV == g.rd_ret))
+  ENS("C02/pipe_read.eof_is_epipe", IMPLIES(g.rd_ret == 0, RV == -EPIPE))
+  ENS("C02/pipe_read.error_is_errno", IMPLIES(g.rd_ret < 0, RV == -g.rd_errno && RV < 0))
+  ENS("C17/pipe_read.ewouldblock", IMPLIES(g.rd_ret < 0 && g.rd_errno == EAGAIN, RV == REPROC_EWOULDBLOCK))
+  ENS("C17/pipe_read.nonblocking_never_sleeps", IMPLIES((OLD(g.nonblock) & MASK_OF(pipe)) != 0, g.may_block == OLD(g.may_block)))
+  ENS("C05/pipe_read.ledger_unchanged", FD_LEDGER_UNCHANGED && g.nonblock == OLD(g.nonblock) && g.cloexec == OLD(g.cloexec))
+  ENS("C14/pipe_read.nothing_else", g.child_pid == OLD(g.child_pid) && g.child_reaped == OLD(g.child_reaped) && g.child_live == OLD(g.child_live) && g.nsig == OLD(g.nsig) && g.reaps == OLD(g.reaps) && g.poll_calls == OLD(g.poll_calls))
+  ;
+
+CONTRACT(pipe_write)
+int pipe_write(int pipe, const uint8_t *buffer, size_t size)
+  REQ("C02/pipe_write.descriptor_open", IS_OPEN(pipe))
+  REQ_(buffer != NULL)
+  ASSIGNS(g)
+  ENS("C02/pipe_write.exactly_one_write_as_asked", g.wr_calls == OLD(g.wr_calls) + 1 && g.wr_fd == pipe && g.wr_buf == (const void *) buffer && g.wr_n == size && g.rd_calls == OLD(g.rd_calls))
+  ENS("C02/pipe_write.count_is_kernels", IMPLIES(g.wr_ret >= 0, RV == g.wr_ret))
+  ENS("C02/pipe_write.error_is_errno", IMPLIES(g.wr_ret < 0, RV == -g.wr_errno && RV < 0))
+  ENS("C17/pipe_write.ewouldblock", IMPLIES(g.wr_ret < 0 && g.wr_errno == EAGAIN, RV == REPROC_EWOULDBLOCK))
+  ENS("C17/pipe_write.nonblocking_never_sleeps", IMPLIES((OLD(g.nonblock) & MASK_OF(pipe)) != 0, g.may_block == OLD(g.may_block)))
+  ENS("C05/pipe_write.ledger_unchanged", FD_LEDGER_UNCHANGED && g.nonblock == OLD(g.nonblock) && g.cloexec == OLD(g.cloexec))
+  ENS("C14/pipe_write.nothing_else", g.child_pid == OLD(g.child_pid) && g.child_reaped == OLD(g.child_reaped) && g.child_live == OLD(g.child_live) && g.nsig == OLD(g.nsig) && g.reaps == OLD(g.reaps) && g.poll_calls == OLD(g.poll_calls))
+  ;
+
+/* ------------------------------ process.posix.c --------------------------- */
+
+CONTRACT(process_wait)
+int process_wait(pid_t process)
+  REQ("C06/process_wait.own_unreaped_child", process > 0 && process == g.child_pid && g.child_live && !g.child_reaped)
+  ASSIGNS(g)
+  ENS("C01/process_wait.one_blocking_waitpid", g.wait_calls == OLD(g.wait_calls) + 1)
+  ENS("C01/process_wait.status_means_reaped", IMPLIES(RV >= 0, g.child_reaped && !g.child_live && g.reaps == OLD(g.reaps) + 1))
+  ENS("C01/process_wait.status_is_exact", IMPLIES(RV >= 0, RV == WST_DECODE(g.child_wstatus)))
+  ENS("C01/process_wait.error_means_not_reaped", IMPLIES(RV < 0, !g.child_reaped && g.child_live && g.reaps == OLD(g.reaps) && RV == -g.err))
+  ENS("C06/process_wait.no_signal", g.nsig == OLD(g.nsig) && g.kill_calls == OLD(g.kill_calls))
+  ENS("C05/process_wait.ledger_unchanged", FD_LEDGER_UNCHANGED && g.child_pid == OLD(g.child_pid) && g.child_wstatus == OLD(g.child_wstatus))
+  ;
+
+CONTRACT(process_terminate)
+int process_terminate(pid_t process)
+  REQ("C06/process_terminate.own_unreaped_child", process > 0 && process == g.child_pid && g.child_live && !g.child_reaped)
+  ASSIGNS(g)
+  ENS("C07/process_terminate.one_kill", g.kill_calls == OLD(g.kill_calls) + 1 && g.wait_calls == OLD(g.wait_calls))
+  ENS("C07/process_terminate.sends_sigterm_once", IMPLIES(RV == 0, g.nsig == OLD(g.nsig) + 1 && IMPLIES(OLD(g.nsig) < 4, g.sig_log[OLD(g.nsig)] == SIGTERM)))
+  ENS("C07/process_terminate.failure_sends_nothing", IMPLIES(RV != 0, RV == -g.err && RV < 0 && g.nsig == OLD(g.nsig)))
+  ENS("C05/process_terminate.ledger_unchanged", FD_LEDGER_UNCHANGED && g.child_pid == OLD(g.child_pid) && g.child_reaped == OLD(g.child_reaped) && g.child_live == OLD(g.child_live) && g.reaps == OLD(g.reaps))
+  ;
+
+CONTRACT(process_kill)
+int process_kill(pid_t process)
+  REQ("C06/process_kill.own_unreaped_child", process > 0 && process == g.child_pid && g.child_live && !g.child_reaped)
+  ASSIGNS(g)
+  ENS("C07/process_kill.one_kill", g.kill_calls == OLD(g.kill_calls) + 1 && g.wait_calls == OLD(g.wait_calls))
+  ENS("C07/process_kill.sends_sigkill_once", IMPLIES(RV == 0, g.nsig == OLD(g.nsig) + 1 && IMPLIES(OLD(g.nsig) < 4, g.sig_log[OLD(g.nsig)] == SIGKILL)))
+  ENS("C07/process_kill.failure_sends_nothing", IMPLIES(RV != 0, RV == -g.err && RV < 0 && g.nsig == OLD(g.nsig)))
+  ENS("C05/process_kill.ledger_unchanged", FD_LEDGER_UNCHANGED && g.child_pid == OLD(g.child_pid) && g.child_reaped == OLD(g.child_reaped) && g.child_live == OLD(g.child_live) && g.reaps == OLD(g.reaps))
+  ;
+
 #endif
